@@ -557,7 +557,7 @@ func (n *cnode) start() error {
 	var rr res
 	select {
 	case rr = <-ch:
-	case <-time.After(5 * time.Second):
+	case <-time.After(newRaftWatchdog(inst)):
 		c.h.add(hev{kind: "note", node: n.id, inst: inst, s: "newraft-blocks"})
 		return errors.New("NewRaft blocks")
 	}
@@ -631,6 +631,15 @@ func (n *cnode) awaitCrash(d time.Duration) bool {
 	go func() { r.Shutdown() }()
 	n.logs, n.stable, n.snaps = img.logs, img.stable, img.snaps
 	return true
+}
+
+// how long NewRaft may take before it counts as blocked: the first boot works on a bootstrap image of
+// one entry and cannot block by construction - a long wait there only absorbs a starved machine
+func newRaftWatchdog(inst int) time.Duration {
+	if inst <= 1 {
+		return 60 * time.Second
+	}
+	return 5 * time.Second
 }
 
 // ---------------------------------------------------------------- cluster helpers
